@@ -104,12 +104,15 @@ fn c17_spec() -> CheckSpec {
     CheckSpec {
         property: "C17",
         level: "exploration",
-        rule: "generated documents with non-ASCII and non-BMP characters in strings and comments, padded to every length residue mod 4, encoded as UTF-8, UTF-8+BOM, UTF-16LE/BE with/without BOM, UTF-32LE/BE with/without BOM or Latin-1 bytes that are invalid UTF-8, stored in the simulated file system and read under a chunking schedule (whole, 1 byte, random, exactly len, len +- 1) with benign read-path faults (EINTR, short read, fstat size lie). Oracle: load(file) and load_from_string(decoded text) give equal models and the same diagnostic classes, or fail with the same error class. Totality: the encoded bytes after one storage fault load without panic. Non-trivial: non-ASCII content or an encoding other than plain UTF-8. Distinct: (encoding, length mod 4, non-BMP present, chunk class, fault kinds fired, outcome).",
+        rule: "generated documents with non-ASCII and non-BMP characters in strings and comments, padded to every length residue mod 4, encoded as UTF-8, UTF-8+BOM, UTF-16LE/BE with/without BOM, UTF-32LE/BE with/without BOM or Latin-1 bytes that are invalid UTF-8, stored in the simulated file system and read under a chunking schedule (whole, 1 byte, random, exactly len, len +- 1) with benign read-path faults (EINTR, short read, fstat size lie). Oracle: load(file) and load_from_string(decoded text) give equal models and the same diagnostic classes, or fail with the same error class. Totality: the encoded bytes after one storage fault load without panic; a second scenario loads byte strings that are not derived from a document (BOM / NUL / surrogate / high-byte patterns and the lexical alphabet, lengths 0..400, every residue mod 4) through load and load_fragment_file. Non-trivial: non-ASCII content or an encoding other than plain UTF-8. Distinct: (encoding, length mod 4, non-BMP present, chunk class, fault kinds fired, outcome).",
         assumptions: vec!["first character of every document is ASCII, as the format requires", "Latin-1 variants that happen to be valid UTF-8 are compared against the UTF-8 reading (inherent ambiguity, counted by a probe)"],
         real_components: vec!["a2lfile: loader (read_data, decode_raw_bytes, BOM strip), load/load_fragment_file and everything behind them", "std Read::read_to_end retry/growth loop"],
         stubbed_components: vec!["file system (in-memory VFS)", "OS randomness feeding std RandomState"],
         expected_probes: vec!["EINTR-retried", "latin1-fallback-exercised"],
-        plans: vec![ScenarioPlan { scenario: Box::new(c17::C17Encodings), quick_runs: 20_000, thorough_runs: 2_000_000 }],
+        plans: vec![
+            ScenarioPlan { scenario: Box::new(c17::C17Encodings), quick_runs: 20_000, thorough_runs: 2_000_000 },
+            ScenarioPlan { scenario: Box::new(c17::C17ArbitraryBytes), quick_runs: 40_000, thorough_runs: 4_000_000 },
+        ],
     }
 }
 
